@@ -109,6 +109,7 @@ impl GroupMetadataV3 {
 #[display("{}", serde_json::to_string(self).unwrap_or_default())]
 pub struct ConsolidatedMetadata {
     /// A mapping from node path to Group or Array [`NodeMetadata`] object.
+    #[serde(serialize_with = "serialize_consolidated_metadata_sorted")]
     pub metadata: ConsolidatedMetadataMetadata,
     /// The kind of the consolidated metadata. Must be `'inline'`. Reserved for future use.
     pub kind: ConsolidatedMetadataKind,
@@ -118,6 +119,20 @@ pub struct ConsolidatedMetadata {
 
 /// The `metadata` field of `consolidated_metadata` in [`GroupMetadataV3`].
 pub type ConsolidatedMetadataMetadata = HashMap<String, NodeMetadata>;
+
+/// Serialise the consolidated metadata with its keys in sorted order.
+///
+/// A [`HashMap`] iterates in an arbitrary order, which would make the serialised form of the same document differ between writes.
+fn serialize_consolidated_metadata_sorted<S: serde::Serializer>(
+    metadata: &ConsolidatedMetadataMetadata,
+    serializer: S,
+) -> Result<S::Ok, S::Error> {
+    serializer.collect_map(
+        metadata
+            .iter()
+            .collect::<std::collections::BTreeMap<&String, &NodeMetadata>>(),
+    )
+}
 
 impl Default for ConsolidatedMetadata {
     fn default() -> Self {
